@@ -12,7 +12,7 @@ from vlib import build, rigp, runner, scenario
 
 PID = "C03"
 ASPECTS = ["strict", "version", "community", "user", "engine", "boots_time", "auth_flag", "priv_flag", "flags", "pdu_tag",
-           "bulk_params", "request_id", "msg_id", "oids", "count", "oversize", "bad_oid", "panic", "outcome", "mac", "priv", "salt", "result", "deaf"]
+           "bulk_params", "request_id", "msg_id", "oids", "count", "oversize", "bad_oid", "panic", "outcome", "mac", "priv", "salt", "result", "deaf", "create"]
 
 
 def collect(chk, outs, variant, label):
